@@ -10,9 +10,12 @@ hard-coded copies, so what the library *reads* from a synthesised file can be ch
   raw_lumps(W) / raw_game_lumps(W)             first_diff(a, b) -> first differing path
 
 Layouts: v19 (leaf version 0 with ambient cube), v20, v21, v21_l4d2 (header fields in the order version/offset/length),
-infra (v22, 16-byte primitives), chaos (v25, widened indices, float bounds).  The INFRA and Chaos tables cannot be
-verified here against an independent source (no network): they restate the reference the library itself cites.
-VitaminSource (v43, magic FART) is NOT synthesised.
+infra (v22, 16-byte primitives), chaos (v25, widened indices, float bounds), vitamin (v43, magic FART: 40-byte faces
+with a flags byte and no original/HDR faces or primitives, 44-byte leafs with unsigned bounds and a separate flags byte,
+12-byte brush sides, 24-byte texdata).  The INFRA and Chaos tables cannot be verified here against an independent source
+(no network): they restate the reference the library itself cites.  The VitaminSource table has no reference at all here:
+it restates LUMP_LAYOUT_VITAMIN and the is_vitamin branches of the library, so an error made symmetrically in its reader
+and writer is invisible; reader/writer disagreements and view-ownership errors are not.
 """
 from __future__ import annotations
 
@@ -48,7 +51,7 @@ _STD = dict(
     magic=b'VBSP', header='std',
     face='<HBBihhhh4sifiiiiiHHI', faceid='<H', edge='<HH', prim='<HHHHH', primindex='<H',
     node='<iii6hHHh2x', leaf='<ihh6hHHHHh2x', leaf_ambient=False, leaf_area_shift=7, leafface='<H', leafbrush='<H',
-    waterdata='<ffH2x', brushside='<HhhH', sprp_leaf='<H', float_bounds=False,
+    waterdata='<ffH2x', brushside='<HhhH', sprp_leaf='<H', float_bounds=False, kind='std', texdata='<3f5i',
 )
 LAYOUTS: Dict[str, Dict[str, Any]] = {
     'v19': dict(_STD, version=19, leaf='<ihh6hHHHHh24s2x', leaf_ambient=True),
@@ -56,6 +59,8 @@ LAYOUTS: Dict[str, Dict[str, Any]] = {
     'v21': dict(_STD, version=21),
     'v21_l4d2': dict(_STD, version=21, header='l4d2'),
     'infra': dict(_STD, version=22, prim='<IIIHH'),
+    'vitamin': dict(_STD, version=43, magic=b'FART', kind='vitamin', face='<5i4iB3x', leaf='<ihh6I4HhBx',
+                    brushside='<IIhBB', node='<iii6iHHh2x', texdata='<3f3i'),
     'chaos': dict(
         _STD, version=25,
         face='<IBBxxiiiii4sifiiiiiIII', faceid='<I', edge='<II', prim='<IIIII', primindex='<I',
@@ -211,6 +216,9 @@ def enc_entities(W: dict) -> bytes:
 
 
 def enc_face(L: dict, f: dict) -> bytes:
+    if L['kind'] == 'vitamin':
+        return struct.pack(L['face'], f['plane'], f['texinfo'], f['dispinfo'], f['first_edge'], f['num_edges'], *f['lm_mins'],
+                           *f['lm_size'], f['vflags'])
     nprims = f['num_prims'] | (0 if f['dyn'] else 0x8000)
     return struct.pack(
         L['face'], f['plane'], f['side'], f['on_node'], f['first_edge'], f['num_edges'], f['texinfo'], f['dispinfo'],
@@ -219,6 +227,9 @@ def enc_face(L: dict, f: dict) -> bytes:
 
 
 def enc_leaf(L: dict, lf: dict) -> bytes:
+    if L['kind'] == 'vitamin':
+        return struct.pack(L['leaf'], lf['contents'], lf['cluster'], lf['area'], *lf['mins'], *lf['maxs'], lf['first_face'],
+                           lf['num_faces'], lf['first_brush'], lf['num_brushes'], lf['water_id'], lf['flags'])
     packed = (lf['area'] << L['leaf_area_shift']) | lf['flags']
     args = [lf['contents'], lf['cluster'], packed, *lf['mins'], *lf['maxs'], lf['first_face'], lf['num_faces'],
             lf['first_brush'], lf['num_brushes'], lf['water_id']]
@@ -341,7 +352,8 @@ def raw_lumps(W: dict) -> Dict[int, bytes]:
         data += enc
     lumps[L_TEXDATA_STRING_DATA] = bytes(data)
     lumps[L_TEXDATA_STRING_TABLE] = b''.join(struct.pack('<i', t) for t in table)
-    lumps[L_TEXDATA] = b''.join(struct.pack('<3f5i', *t['refl'], t['name'], t['w'], t['h'], t['w'], t['h']) for t in W['texdata'])
+    lumps[L_TEXDATA] = b''.join(struct.pack(L['texdata'], *t['refl'], t['name'], t['w'], t['h'], *([t['w'], t['h']] if L['kind'] != 'vitamin' else []))
+                                for t in W['texdata'])
     lumps[L_TEXINFO] = b''.join(struct.pack('<16fii', *t['s'], *t['t'], *t['ls'], *t['lt'], t['flags'], t['texdata'])
                                 for t in W['texinfo'])
     prim = bytearray()
@@ -362,7 +374,7 @@ def raw_lumps(W: dict) -> Dict[int, bytes]:
     lumps[L_FACES_HDR] = b''.join(enc_face(L, f) for f in W['hdr_faces'])
     lumps[L_FACEIDS] = b''.join(struct.pack(L['faceid'], i) for i in W['faceids'])
     lumps[L_BRUSHES] = b''.join(struct.pack('<iii', b['first_side'], b['num_sides'], b['contents']) for b in W['brushes'])
-    lumps[L_BRUSHSIDES] = b''.join(struct.pack(L['brushside'], s['plane'], s['texinfo'], s['dispinfo'], s['bevel'])
+    lumps[L_BRUSHSIDES] = b''.join(struct.pack(L['brushside'], s['plane'], s['texinfo'], s['dispinfo'], s['bevel'], *([s['extra']] if L['kind'] == 'vitamin' else []))
                                    for s in W['brushsides'])
     lumps[L_LEAFS] = b''.join(enc_leaf(L, lf) for lf in W['leafs'])
     lumps[L_LEAFFACES] = b''.join(struct.pack(L['leafface'], i) for i in W['leaffaces'])
@@ -389,6 +401,7 @@ def raw_lumps(W: dict) -> Dict[int, bytes]:
         lumps[L_OVERLAY_SYSTEM_LEVELS] = b''.join(struct.pack('<4B', o['min_cpu'], o['max_cpu'], o['min_gpu'], o['max_gpu'])
                                                   for o in W['overlays'])
     lumps[L_PAKFILE] = enc_pak(W)
+    lumps.update(W.get('unused_view_lumps', {}))  # vitamin: lumps whose views parse to nothing on that layout
     return {k: v for k, v in lumps.items() if v}
 
 
@@ -632,14 +645,22 @@ def gen_world(rng, layout: str, **opt: Any) -> dict:
                      'lt': rvec(rng) + [rfloat(rng)], 'flags': rng.choice((0, 0x80, 0x2400, rng.getrandbits(31))),
                      'texdata': rng.randrange(len(W['texdata']))} for _ in range(cnt(1, 3))]
     imax = 0xFFFFFFFF if wide else 0xFFFF
-    W['primitives'] = [{'type': rng.randrange(2), 'indices': [rng.choice((0, 1, 5, imax, rng.randrange(imax))) for _ in range(rng.randint(0, 5))],
+    vit = L['kind'] == 'vitamin'
+    W['primitives'] = [] if vit else [{'type': rng.randrange(2), 'indices': [rng.choice((0, 1, 5, imax, rng.randrange(imax))) for _ in range(rng.randint(0, 5))],
                         'verts': [rvec(rng) for _ in range(rng.randint(0, 3))]} for _ in range(cnt(0, 2))]
     # faces
-    n_orig = cnt(0, 3)
+    n_orig = 0 if vit else cnt(0, 3)
     W['orig_faces'] = [gen_face(rng, L, W, -1) for _ in range(n_orig)]
     n_faces = cnt(1, 4) if n_orig else 0
     W['faces'] = [gen_face(rng, L, W, rng.randrange(n_orig)) for _ in range(n_faces)]
-    hdr = opt.get('hdr', rng.choice(('same', 'same', 'none', 'diff')))
+    if vit:
+        # no original faces, sides, fog, styles, light offsets, areas, primitives or smoothing groups on this layout:
+        # those fields carry what the reader documents assigning; a flags byte is added
+        n_faces = cnt(0, 4)
+        W['faces'] = [dict(gen_face(rng, L, W, -1), side=False, on_node=False, fog=0, styles=bytes(4), lightofs=0, area=0.0,
+                           num_prims=0, first_prim=0, dyn=False, smooth=0, vflags=rng.choice((0, 1, 0x80, rng.randrange(256))))
+                      for _ in range(n_faces)]
+    hdr = opt.get('hdr', rng.choice(('same', 'same', 'none', 'diff'))) if not vit else 'none'
     if not n_faces:
         hdr = 'none'
     if hdr == 'same':
@@ -662,6 +683,8 @@ def gen_world(rng, layout: str, **opt: Any) -> dict:
         for _ in range(k):
             sides.append({'plane': rng.randrange(len(W['planes'])), 'texinfo': rng.randrange(len(W['texinfo'])),
                           'dispinfo': rng.choice((0, 0, 1)), 'bevel': rng.choice((0, 1, 0, 1, 0x100, 0x301))})
+            if vit:  # bevel flag and the extra byte are separate fields
+                sides[-1].update(bevel=rng.randrange(2), extra=rng.choice((0, 0, 1, 255)))
     W['brushes'], W['brushsides'] = brushes, sides
     # leafs
     W['waterdata'] = [{'surface_z': rfloat(rng), 'min_z': rfloat(rng), 'texinfo': rng.randrange(len(W['texinfo']))}
@@ -674,6 +697,10 @@ def gen_world(rng, layout: str, **opt: Any) -> dict:
             return rng.randint(-20000, 20000) / 8.0
         v = rng.randint(-16384, 16384)
         return float(v) if L['float_bounds'] else v
+
+    def leaf_bound() -> Any:
+        # the vitamin leaf stores its bounds as unsigned integers
+        return rng.randint(0, 40000) if vit else bound()
     leafs = []
     leaffaces: List[int] = []
     leafbrushes: List[int] = []
@@ -681,8 +708,8 @@ def gen_world(rng, layout: str, **opt: Any) -> dict:
         nf = rng.randint(0, min(3, n_faces))
         nb = rng.randint(0, min(2, len(brushes)))
         lf = {'contents': rng.choice((0, 1, 0x20, rng.getrandbits(31))), 'cluster': rng.choice((-1, 0, 1, 5)),
-              'area': rng.randrange(256), 'flags': rng.randrange(128), 'mins': [bound() for _ in range(3)],
-              'maxs': [bound() for _ in range(3)], 'first_face': len(leaffaces), 'num_faces': nf,
+              'area': rng.randrange(256), 'flags': rng.randrange(128), 'mins': [leaf_bound() for _ in range(3)],
+              'maxs': [leaf_bound() for _ in range(3)], 'first_face': len(leaffaces), 'num_faces': nf,
               'first_brush': len(leafbrushes), 'num_brushes': nb,
               'water_id': rng.randrange(len(W['waterdata'])) if W['waterdata'] and rng.random() < 0.5 else -1,
               'ambient': rbytes(rng, 24) if L['leaf_ambient'] else bytes(24), 'mindist': rng.choice((0, 65535, rng.randrange(65536)))}
@@ -789,6 +816,10 @@ def gen_world(rng, layout: str, **opt: Any) -> dict:
         rng.shuffle(order)
     W['phys_layout'] = {'order': order, 'empty_offsets': rng.random() < 0.5, 'game_sep': rng.random() < 0.7,
                         'lzma_props': rng.choice(((3, 0, 2, 1 << 24), (3, 0, 2, 1 << 16), (0, 2, 1, 1 << 20), (4, 0, 0, 4096)))}
+    if vit and opt.get('unused_view_lumps', False):
+        # lumps whose views parse to nothing on this layout, but which the format does not forbid to hold data
+        W['unused_view_lumps'] = {idx: rbytes(rng, rng.choice((8, 40, 112))) for idx in
+                                  (L_ORIGINALFACES, L_FACES_HDR, L_PRIMITIVES, L_PRIMVERTS, L_PRIMINDICES) if rng.random() < 0.7}
     # a compressed lump must be non-empty to be marked as such in the directory
     present = raw_lumps(W)
     W['compressed'] = {i for i in W['compressed'] if present.get(i)}
@@ -915,7 +946,8 @@ def _surf_pairs(W: dict) -> List[list]:
 
 def _exp_face(W: dict, f: dict, kind: str, i: int, surf: List[list]) -> dict:
     split = kind != 'orig'
-    return {
+    vit = LAYOUTS[W['layout']]['kind'] == 'vitamin'
+    d = {
         'plane': f['plane'], 'side': bool(f['side']), 'on_node': bool(f['on_node']),
         'edges': [surf[k][:2] for k in range(f['first_edge'], f['first_edge'] + f['num_edges'])],
         'texinfo': f['texinfo'] if split else None, 'dispinfo': f['dispinfo'], 'fog': f['fog'], 'styles': f['styles'].hex(),
@@ -924,6 +956,9 @@ def _exp_face(W: dict, f: dict, kind: str, i: int, surf: List[list]) -> dict:
         'dyn': bool(f['dyn']), 'smooth': f['smooth'],
         'hammer_id': (W['faceids'][i] if i < len(W['faceids']) else None) if split else None, 'vflags': 0,
     }
+    if vit:  # FACEIDS is read but never attached to the faces on this layout; there are no original faces
+        d.update(orig=None, hammer_id=None, vflags=f['vflags'])
+    return d
 
 
 def expected(W: dict) -> dict:
@@ -949,11 +984,14 @@ def expected(W: dict) -> dict:
     # reading the split faces copies texinfo and the Hammer id onto the original face (documented in the reader)
     for lst in (W['faces'], W['hdr_faces']):
         for i, f in enumerate(lst):
+            if L['kind'] == 'vitamin':
+                break
             o = C['orig_faces'][f['orig']]
             o['texinfo'] = f['texinfo']
             if i < len(W['faceids']):
                 o['hammer_id'] = W['faceids'][i]
-    C['brushes'] = [[b['contents'], [[s['plane'], s['texinfo'], s['dispinfo'], bool(s['bevel'] & 1), s['bevel'] & ~1]
+    vit = L['kind'] == 'vitamin'
+    C['brushes'] = [[b['contents'], [[s['plane'], s['texinfo'], s['dispinfo'], bool(s['bevel'] & 1), s['extra'] if vit else s['bevel'] & ~1]
                                      for s in W['brushsides'][b['first_side']:b['first_side'] + b['num_sides']]]]
                     for b in W['brushes']]
     C['visleafs'] = [{'contents': lf['contents'], 'cluster': lf['cluster'], 'area': lf['area'], 'flags': lf['flags'],
